@@ -156,6 +156,9 @@ def run(F, R, tier):
     r9_2(F, R)
     r9_3(F, R)
     r9_5(F, R)
+    if tier == "thorough":
+        from .. import witness
+        witness.run(R, ["C09"])
     try:
         from . import pps_c09
         pps_c09.run(F, R, tier)
